@@ -134,6 +134,18 @@ def main(argv):
         for old in (cm.WORK / "replay").glob(f"{prop}-*.json"):
             old.unlink()
     ctx = Ctx(prop, tier, seed)
+    # wall-clock limit: a change that makes the implementation recurse or loop without end must not hang the check (seen with a
+    # mutant of LevyCopulaModel._mass_nd: every call ran into RecursionError after exponentially many frames).  Exceeding the limit
+    # is an infrastructure outcome (exit 2), never a verdict.  Quick runs take 10-150 s, thorough runs up to ~40 min.
+    import signal
+    limit = int(os.environ.get("VERIF_WALL_LIMIT", "14400" if tier == "thorough" else "2400"))
+
+    def _too_long(signum, frame):
+        signal.alarm(20)          # a probe may swallow the exception with a broad `except`: keep firing until it gets out
+        raise Infra(f"wall-clock limit of {limit} s exceeded (VERIF_WALL_LIMIT)")
+    if hasattr(signal, "SIGALRM") and limit > 0:
+        signal.signal(signal.SIGALRM, _too_long)
+        signal.alarm(limit)
     try:
         mod = importlib.import_module(f"harness.props.{prop.lower()}")
     except ModuleNotFoundError as e:
